@@ -36,7 +36,32 @@ impl Read for OneByte<'_> {
     }
 }
 
-pub const CHANNELS: [&str; 8] = ["from_str", "from_slice", "from_reader", "from_reader(1 byte at a time)", "from_value", "Json::from_slice", "Json::from_reader", "Json::deserialize"];
+pub const CHANNELS: [&str; 13] = [
+    "from_str",
+    "from_slice",
+    "from_reader",
+    "from_reader(1 byte at a time)",
+    "from_value",
+    "Json::from_slice",
+    "Json::from_reader",
+    "Json::deserialize",
+    "Json::from_reader(1 byte at a time)",
+    "Json::from_reader(7 bytes at a time)",
+    "Json::from_reader(two chained halves)",
+    "JsonPretty::from_reader(3 bytes at a time)",
+    "JsonPretty::from_slice",
+];
+
+/// A reader that hands out at most `n` bytes per call (short reads before EOF).
+struct Trickle<'a>(&'a [u8], usize);
+impl Read for Trickle<'_> {
+    fn read(&mut self, buf: &mut [u8]) -> std::io::Result<usize> {
+        let n = self.1.min(buf.len()).min(self.0.len());
+        buf[..n].copy_from_slice(&self.0[..n]);
+        self.0 = &self.0[n..];
+        Ok(n)
+    }
+}
 
 fn decode<T: DeserializeOwned>(channel: &str, text: &str) -> Result<Option<T>, String> {
     let r = guard(|| -> Option<T> {
@@ -48,6 +73,15 @@ fn decode<T: DeserializeOwned>(channel: &str, text: &str) -> Result<Option<T>, S
             "from_value" => serde_json::from_str::<Value>(text).ok().and_then(|v| serde_json::from_value(v).ok()),
             "Json::from_slice" => Json::from_slice(text.as_bytes()).ok(),
             "Json::from_reader" => Json::from_reader(text.as_bytes()).ok(),
+            "Json::from_reader(1 byte at a time)" => Json::from_reader(Trickle(text.as_bytes(), 1)).ok(),
+            "Json::from_reader(7 bytes at a time)" => Json::from_reader(Trickle(text.as_bytes(), 7)).ok(),
+            "Json::from_reader(two chained halves)" => {
+                let b = text.as_bytes();
+                let (x, y) = b.split_at(b.len() / 2);
+                Json::from_reader(x.chain(y)).ok()
+            }
+            "JsonPretty::from_reader(3 bytes at a time)" => in_toto::interchange::JsonPretty::from_reader(Trickle(text.as_bytes(), 3)).ok(),
+            "JsonPretty::from_slice" => in_toto::interchange::JsonPretty::from_slice(text.as_bytes()).ok(),
             _ => serde_json::from_str::<Value>(text).ok().and_then(|v| Json::deserialize(&v).ok()),
         }
     });
@@ -356,7 +390,7 @@ pub fn run(tier: Tier) -> i32 {
     });
     c.acc = Acc::merge_all(accs);
     c.acc.note_n("documents", jobs.len() as u64);
-    c.rule = format!("documents: all C16 text documents (as MetadataWrapper and as Link/LayoutMetadata), every rule form standalone plus malformed rules, steps, inspections, byproducts, signed blocks, all fixture keys and signatures, C19 predicates and statements (through the wrappers and the typed structs), and node-level mutations of four fixtures (mostly rejected); each in spellings compact / pretty / whitespace-heavy / all strings \\u-escaped / one string token escaped at a time (up to {max_tokens} tokens per document) x 8 channels; baseline = from_str on the compact spelling. distinct_nontrivial = (type, document) pairs");
+    c.rule = format!("documents: all C16 text documents (as MetadataWrapper and as Link/LayoutMetadata), every rule form standalone plus malformed rules, steps, inspections, byproducts, signed blocks, all fixture keys and signatures, C19 predicates and statements (through the wrappers and the typed structs), and node-level mutations of four fixtures (mostly rejected); each in spellings compact / pretty / whitespace-heavy / all strings \\u-escaped / one string token escaped at a time (up to {max_tokens} tokens per document) x 13 channels (incl. readers that return short reads); baseline = from_str on the compact spelling. distinct_nontrivial = (type, document) pairs");
     c.bound_completed = "complete within the listed documents".into();
     c.assume("serde_json's own parsing is identical across channels for serde_json::Value (the from_value and Json::deserialize channels go through it)");
     c.finish()
